@@ -3,6 +3,7 @@
 #include "nmtools/array/view/broadcast_to.hpp"
 #include "nmtools/array/view/broadcast_arrays.hpp"
 #include "nmtools/array/array/broadcast_to.hpp"
+#include "nmtools/array/array/broadcast_arrays.hpp"
 #define NMC_MAIN
 #include "common.hpp"
 
@@ -36,6 +37,26 @@ void nmc_enumerate(const nmc::Tier& t, const nmc::Sink& emit) {
     for (auto& d : S04_3) emit(Case("bto_scalar", {d}));
     auto& P = t.thorough() ? S14_3 : S14_3;
     for (auto& a : P) for (auto& b : P) { if (!t.thorough() && a.size() + b.size() > 6) continue; emit(Case("barr", {a, b})); }
+    // ---- overloads / argument kinds the cases above never pass (audit of optional parameters / overloads)
+    std::vector<L> S13_2, S12_3, G4;
+    nmc::each_shape_range(1, 3, 2, [&](const L& s) { S13_2.push_back(s); });
+    nmc::each_shape_range(1, 2, 3, [&](const L& s) { S12_3.push_back(s); });
+    // barr|a|b|1: the EAGER array::broadcast_arrays (pairs of S(1..3,2); thorough also S(1..2,3))
+    for (auto& a : S13_2) for (auto& b : S13_2) emit(Case("barr", {a, b, {1}}));
+    if (t.thorough()) for (auto& a : S12_3) for (auto& b : S12_3) emit(Case("barr", {a, b, {1}}));
+    // barr3|a|b|c: THREE operands, lazy and eager (triples of S(1..3,2), quick: dims summing <= 7; thorough also triples of S(1..2,3))
+    for (auto& a : S13_2) for (auto& b : S13_2) for (auto& c : S13_2) { if (!t.thorough() && a.size() + b.size() + c.size() > 7) continue; emit(Case("barr3", {a, b, c})); }
+    if (t.thorough()) for (auto& a : S12_3) for (auto& b : S12_3) for (auto& c : S12_3) emit(Case("barr3", {a, b, c}));
+    // barrs|pos|a[|b]: a SCALAR operand (position pos) mixed with one or two arrays, lazy and eager
+    for (auto& a : S13_2) { emit(Case("barrs", {{0}, a})); emit(Case("barrs", {{1}, a})); }
+    for (auto& a : S13_2) for (auto& b : S13_2) { if (!t.thorough() && a.size() + b.size() > 4) continue; for (long pos = 0; pos <= 2; pos++) emit(Case("barrs", {{pos}, a, b})); }
+    // bs4|a|b|c|d: index::broadcast_shape with FOUR shapes: all quadruples of a small grid holding 0..2-d shapes with extents 1, 2, 3 (an incompatible shape
+    // occurs in every position); thorough: all quadruples of S(0..2,3)
+    if (t.thorough()) nmc::each_shape_range(0, 2, 3, [&](const L& s) { G4.push_back(s); });
+    else G4 = {L{}, L{1}, L{2}, L{3}, L{1, 2}, L{2, 1}, L{3, 1}, L{2, 3}};
+    for (auto& a : G4) for (auto& b : G4) for (auto& c : G4) for (auto& d : G4) emit(Case("bs4", {a, b, c, d}));
+    // bto_scalar|d|1: the EAGER array::broadcast_to with a scalar source
+    for (auto& d : S04_3) emit(Case("bto_scalar", {d, {1}}));
 }
 
 // ---- container kinds for the mixed-kind matrix: 0 list, 1 fixed array, 2 static_vector<.,4>, 3 array of clipped_size_t<2>, 4 run-time tuple, 5 array of clipped_size_t<3>
@@ -72,6 +93,35 @@ template <typename M> static std::optional<L> shape_of(const M& m) {
     else return nmc::to_L(m);
 }
 static std::string show(const std::optional<L>& s) { return s ? nmc::str(*s) : std::string("fail"); }
+
+// every member of a broadcast_arrays result (tuple of views, or of evaluated arrays; maybe-wrapped) against the model broadcast_to(source_i, common shape)
+template <typename R> static Outcome judge_pack(const R& res, const std::vector<RArr>& srcs, const std::optional<L>& bs, bool nontriv, const std::string& what) {
+    if constexpr (meta::is_maybe_v<R>) {
+        if (!nm::has_value(res)) { if (!bs) return Outcome::ok(true, 17); return Outcome::bad("rejects-valid", what + ": broadcast_arrays reported Nothing, expected shape " + nmc::str(*bs)); }
+        return judge_pack(*res, srcs, bs, nontriv, what);
+    } else {
+        if (!bs) return Outcome::bad("accepts-invalid", what + ": broadcast_arrays accepted incompatible shapes");
+        constexpr auto N = meta::len_v<R>;
+        if ((size_t)N != srcs.size()) return Outcome::bad("wrong", what + ": the result has " + std::to_string((long)N) + " members for " + std::to_string(srcs.size()) + " operands");
+        Outcome acc = Outcome::ok(nontriv, 0); bool failed = false;
+        meta::template_for<N>([&](auto i) {
+            constexpr size_t I = decltype(i)::value; if (failed) return;
+            Outcome o = judge(nmc::observe(nm::get<I>(res)), ref::broadcast_to(srcs[I], *bs), nontriv);
+            if (!o.fail.empty()) { o.fail = what + ", operand " + std::to_string(I) + ": " + o.fail; acc = o; failed = true; } else acc.outcome ^= nmc::mix(o.outcome + I);
+        });
+        return acc;
+    }
+}
+template <typename V, typename E> static Outcome pack_both(const V& lazy, const E& eager, const std::vector<RArr>& srcs, const std::vector<L>& shapes) {
+    auto bs = ref::broadcast_shapes(shapes);
+    bool nontriv = !bs; if (bs) for (auto& s : shapes) if (s != *bs) nontriv = true;
+    Outcome o = judge_pack(lazy, srcs, bs, nontriv, "view");
+    if (!o.fail.empty()) return o;
+    Outcome e = judge_pack(eager, srcs, bs, nontriv, "array");
+    if (!e.fail.empty()) return e;
+    if (e.outcome != o.outcome) return Outcome::bad("wrong", "view::broadcast_arrays and array::broadcast_arrays disagree", nontriv, o.outcome);
+    return o;
+}
 
 Outcome nmc_execute(const Case& c) {
     if (c.op == "bs2") {
@@ -123,7 +173,43 @@ Outcome nmc_execute(const Case& c) {
     if (c.op == "bto_scalar") {
         RArr r(L{}, {7.0}); auto d = to_sl(c.a[0]); long x = 7;
         ROpt want = ref::broadcast_to(r, c.a[0]);
+        if (c.a.size() > 1) { Outcome e = judge(nmc::observe(na::broadcast_to(x, d)), want, true); if (!e.fail.empty()) e.fail = "array: " + e.fail; return e; }
         return judge(nmc::observe(view::broadcast_to(x, d)), want, true);
+    }
+    if (c.op == "barr" && c.a.size() > 2) {   // eager form
+        RArr ra = RArr::iota(c.a[0]), rb = RArr::iota(c.a[1], 100);
+        auto a = make_arr<long>(c.a[0]); auto b = make_arr<long>(c.a[1], 100);
+        const auto lazy = view::broadcast_arrays(a, b); const auto eager = na::broadcast_arrays(a, b);
+        return pack_both(lazy, eager, {ra, rb}, {c.a[0], c.a[1]});
+    }
+    if (c.op == "barr3") {
+        RArr ra = RArr::iota(c.a[0]), rb = RArr::iota(c.a[1], 100), rc = RArr::iota(c.a[2], 200);
+        auto a = make_arr<long>(c.a[0]); auto b = make_arr<long>(c.a[1], 100); auto d = make_arr<long>(c.a[2], 200);
+        const auto lazy = view::broadcast_arrays(a, b, d); const auto eager = na::broadcast_arrays(a, b, d);
+        return pack_both(lazy, eager, {ra, rb, rc}, {c.a[0], c.a[1], c.a[2]});
+    }
+    if (c.op == "barrs") {
+        long pos = c.a[0][0]; long x = 7; RArr rx(L{}, {7.0});
+        RArr ra = RArr::iota(c.a[1]); auto a = make_arr<long>(c.a[1]);
+        if (c.a.size() == 2) {
+            if (pos == 0) { const auto lazy = view::broadcast_arrays(x, a); const auto eager = na::broadcast_arrays(x, a); return pack_both(lazy, eager, {rx, ra}, {L{}, c.a[1]}); }
+            const auto lazy = view::broadcast_arrays(a, x); const auto eager = na::broadcast_arrays(a, x); return pack_both(lazy, eager, {ra, rx}, {c.a[1], L{}});
+        }
+        RArr rb = RArr::iota(c.a[2], 100); auto b = make_arr<long>(c.a[2], 100);
+        if (pos == 0) { const auto lazy = view::broadcast_arrays(x, a, b); const auto eager = na::broadcast_arrays(x, a, b); return pack_both(lazy, eager, {rx, ra, rb}, {L{}, c.a[1], c.a[2]}); }
+        if (pos == 1) { const auto lazy = view::broadcast_arrays(a, x, b); const auto eager = na::broadcast_arrays(a, x, b); return pack_both(lazy, eager, {ra, rx, rb}, {c.a[1], L{}, c.a[2]}); }
+        const auto lazy = view::broadcast_arrays(a, b, x); const auto eager = na::broadcast_arrays(a, b, x); return pack_both(lazy, eager, {ra, rb, rx}, {c.a[1], c.a[2], L{}});
+    }
+    if (c.op == "bs4") {
+        auto a = to_sl(c.a[0]), b = to_sl(c.a[1]), d = to_sl(c.a[2]), e = to_sl(c.a[3]);
+        auto want = ref::broadcast_shapes({c.a[0], c.a[1], c.a[2], c.a[3]});
+        auto got = shape_of(ix::broadcast_shape(a, b, d, e));
+        uint64_t h = got ? nmc::hash_vec(*got) : 17;
+        if (got != want) return Outcome::bad(!want ? "accepts-invalid" : (!got ? "rejects-valid" : "wrong"), "broadcast_shape(a,b,c,d) = " + show(got) + " expected " + show(want), true, h);
+        auto nested = shape_of(ix::broadcast_shape(ix::broadcast_shape(a, b), ix::broadcast_shape(d, e)));
+        if (nested != got) return Outcome::bad("wrong", "((a,b),(c,d)) = " + show(nested) + " but (a,b,c,d) = " + show(got), true, h);
+        bool stretched = want && (*want != c.a[0] || *want != c.a[1] || *want != c.a[2] || *want != c.a[3]);
+        return Outcome::ok(stretched || !want, h);
     }
     if (c.op == "barr") {
         RArr ra = RArr::iota(c.a[0]), rb = RArr::iota(c.a[1], 100);
@@ -156,4 +242,11 @@ void nmc_selftest() {
     RArr r = RArr::iota(L{3, 1});
     ROpt b = ref::broadcast_to(r, L{2, 3, 2});
     if (!b || b->data[1] != 1 || b->data[2] != 2 || b->data[6] != 1) nmc::die("selftest: broadcast_to model");
+    auto w4 = ref::broadcast_shapes({L{2, 1}, L{3}, L{}, L{1, 1, 1}});
+    if (!w4 || *w4 != L{1, 2, 3}) nmc::die("selftest: model broadcast of four shapes");
+    if (ref::broadcast_shapes({L{2}, L{1}, L{1}, L{3}})) nmc::die("selftest: model accepts (2),(1),(1),(3)");
+    // a broadcast_arrays that hands back the operands in the wrong order must be seen
+    std::vector<RArr> srcs{RArr::iota(L{2, 1}), RArr::iota(L{3}, 100)};
+    Obs swapped = ref::broadcast_to(srcs[1], L{2, 3})->obs();
+    if (nmc::diff(swapped, ref::broadcast_to(srcs[0], L{2, 3})).empty()) nmc::die("selftest: oracle blind to swapped operands");
 }
